@@ -299,9 +299,14 @@ func c10Unit(j *Job, u *JobUnit) error {
 				)
 			}
 			for _, src := range sources {
-				for _, ct := range []string{"application/json", "application/x-protobuf", "application/octet-stream"} {
-					ctKey := map[string]string{"application/json": "json", "application/x-protobuf": "proto", "application/octet-stream": "octet"}[ct]
+				// each media type bare and with a parameter (the encoding is decided by the media type, whatever parameters follow)
+				for _, ct := range []string{"application/json", "application/x-protobuf", "application/octet-stream",
+					"application/json; charset=utf-8", `application/x-protobuf; messageType="verif.Req"`, "application/octet-stream; charset=binary"} {
+					ctKey := map[string]string{"application/json": "json", "application/x-protobuf": "proto", "application/octet-stream": "octet"}[strings.SplitN(ct, ";", 2)[0]]
 					binary := ctKey != "json"
+					if strings.Contains(ct, ";") {
+						ctKey += "+param"
+					}
 					if src.key == "malformed_body" && binary {
 						src.body = []byte{0xff, 0xff, 0xff}
 					} else if src.key == "malformed_body" {
@@ -473,7 +478,7 @@ func c10Unit(j *Job, u *JobUnit) error {
 						}
 						t.hit(cellBase, "error_response_as_documented", true)
 						// ---- client continuation (no hook only: the default contract) ----
-						if !hk.installed && svc != nil && svc.NewClient != nil && ctKey != "octet" {
+						if !hk.installed && svc != nil && svc.NewClient != nil && ctKey != "octet" && !strings.Contains(ct, ";") { // the client API offers the two bare media types only
 							c10Client(t, cellBase, cell, svc, m, valid, ct, ex, src)
 						}
 						if !hk.installed && ct == "application/json" && j.Params["stage"] == "tsclient" {
